@@ -31,6 +31,7 @@ from fedjax.core.typing import PyTree
 
 import jax
 import jax.numpy as jnp
+import numpy as np
 
 # Shared input that is passed to the client init that is shared across all
 # clients. For example, this could be the shared global model parameters that
@@ -263,6 +264,23 @@ def _blockify(clients: Iterable[Tuple[ClientId, Iterable[BatchExample],
         client_input=[client_input for _, _, client_input in block])
 
 
+def _device_put_sharded(shards: Sequence[PyTree], devices: Sequence[Any]):
+  """Stacks per-device pytrees along a new leading axis sharded over devices.
+
+  Stand-in for jax.device_put_sharded, which newer JAX releases removed.
+  """
+  sharding = jax.sharding.NamedSharding(
+      jax.sharding.Mesh(np.array(devices), ('devices',)),
+      jax.sharding.PartitionSpec('devices'))
+  return jax.tree_util.tree_map(
+      lambda *xs: jax.device_put(jnp.stack(xs), sharding), *shards)
+
+
+def _device_put_replicated(x: PyTree, devices: Sequence[Any]):
+  """Stand-in for the removed jax.device_put_replicated."""
+  return _device_put_sharded([x] * len(devices), devices)
+
+
 class ForEachClientPmapBackend(ForEachClientBackend):
   """for_each_client backend using jax.pmap for parallelization."""
 
@@ -308,21 +326,21 @@ class ForEachClientPmapBackend(ForEachClientBackend):
     p_client_final = jax.pmap(client_final, donate_argnums=1)
 
     def run_block(p_shared_input, block):
-      p_client_input = jax.device_put_sharded(block.client_input, devices)
+      p_client_input = _device_put_sharded(block.client_input, devices)
       p_state = p_client_init(p_shared_input, p_client_input)
       p_step_results = []
       for p_batch, p_mask in block.masked_batches:
         p_state, p_step_result = p_client_step(
             p_state,
-            jax.device_put_sharded(p_batch, devices),
-            jax.device_put_sharded(p_mask, devices),
+            _device_put_sharded(p_batch, devices),
+            _device_put_sharded(p_mask, devices),
         )
         p_step_results.append(p_step_result)
       p_client_output = p_client_final(p_shared_input, p_state)
       return p_client_output, p_step_results
 
     def run(shared_input, clients):
-      p_shared_input = jax.device_put_replicated(shared_input, devices)
+      p_shared_input = _device_put_replicated(shared_input, devices)
       for block in _blockify(clients, block_size):
         p_client_output, p_step_results = run_block(p_shared_input, block)
         # Split outputs and release buffers as we go.
